@@ -1123,7 +1123,40 @@ def gen_purity():
                         ambient.append(where + " from " + node.module + " import …")
                     elif top == "random" and {a.name for a in node.names} - {"choices"}:
                         ambient.append(where + " from random import " + ",".join(a.name for a in node.names))
+    # the vendored sly: the same three questions, answered by the stripped SOURCE LINE (stable under edits elsewhere in the file);
+    # its known uses (sanity asserts at class-build time, id()-keyed caches of objects that are kept alive) are pinned by an obligation
+    sly_debug, sly_ident, sly_ambient = [], [], []
+    sly_root = os.path.join(root, "sly")
+    for f in sorted(os.listdir(sly_root)) if os.path.isdir(sly_root) else []:
+        if not f.endswith(".py"):
+            continue
+        try:
+            text = open(os.path.join(sly_root, f), encoding="utf-8").read()
+            tree = ast.parse(text)
+        except Exception as ex:  # noqa
+            sly_ambient.append("%s: unparsable" % f)
+            continue
+        src = text.split("\n")
+        line_of = lambda node: " ".join(src[node.lineno - 1].split())[:90]
+        for node in ast.walk(tree):
+            if isinstance(node, ast.Assert):
+                sly_debug.append("%s: %s" % (f, line_of(node)))
+            elif isinstance(node, ast.Name) and node.id == "__debug__":
+                sly_debug.append("%s: %s" % (f, line_of(node)))
+            elif isinstance(node, ast.Call) and isinstance(node.func, ast.Name) and node.func.id == "id":
+                sly_ident.append("%s: %s" % (f, line_of(node)))
+            elif isinstance(node, ast.Import):
+                for a in node.names:
+                    if a.name.split(".")[0] in AMBIENT_MODULES | {"random"}:
+                        sly_ambient.append("%s: import %s" % (f, a.name))
+            elif isinstance(node, ast.ImportFrom) and node.module and node.module.split(".")[0] in AMBIENT_MODULES | {"random"}:
+                sly_ambient.append("%s: from %s import …" % (f, node.module))
+    sly_debug, sly_ident, sly_ambient = sorted(set(sly_debug)), sorted(set(sly_ident)), sorted(set(sly_ambient))
     lines = ["/- GENERATED by tools/translate.py from /repo — do not edit -/", "namespace Pyab.Generated", "",
+             "/-- the same scan over the vendored sly (entries are stripped source lines) -/",
+             "def slyDebugDependent : List String := [" + ", ".join(lstr(x) for x in sly_debug) + "]",
+             "def slyIdentityDependent : List String := [" + ", ".join(lstr(x) for x in sly_ident) + "]",
+             "def slyAmbientDependent : List String := [" + ", ".join(lstr(x) for x in sly_ambient) + "]", "",
              "/-- `assert` statements and uses of `__debug__` in the package's own modules (stripped by `python -O`) -/",
              "def debugDependent : List String := [" + ", ".join(lstr(x) for x in debug) + "]", "",
              "/-- calls of the builtin `id` (object identity / address) -/",
